@@ -155,7 +155,10 @@ def ldf_readFragLog {σ} (hook : ObjHook σ) (req : ReadReq) :
       | .ok raw =>
           let resp := tagResp raw
           match resp.p.data with
-          | none => ((w1, .ok (failedResp "One or more fragment responses failed", .none, none)), [(offset, [])])
+          | none =>
+              match resp.error with
+              | .error e => ((w1, .error e), [(offset, [])])
+              | .ok _ => ((w1, .ok (failedResp "One or more fragment responses failed", .none, none)), [(offset, [])])
           | some d =>
               let (ty, vb) := Cl.splitTyped d
               if resp.p.serviceStatus == some Gen.INSUFFICIENT_PACKETS then
@@ -163,12 +166,16 @@ def ldf_readFragLog {σ} (hook : ObjHook σ) (req : ReadReq) :
                 let (res, log) := ldf_readFragLog hook req fuel { w1 with drv := d' } seq' (offset + vb.length) (acc ++ vb)
                   (allOk && resp.valid)
                 (res, (offset, vb) :: log)
-              else if allOk && resp.valid then
-                match parseReadReply (ty ++ acc ++ vb) req.info req.elements with
-                | .ok (v, dt) => ((w1, .ok (resp, v, some dt)), [(offset, vb)])
-                | .error _ => ((w1, .ok ({ resp with p := { resp.p with err := some .parseFailed }, valid := false }, .none, none)),
-                    [(offset, vb)])
-              else ((w1, .ok (failedResp "One or more fragment responses failed", .none, none)), [(offset, vb)])
+              else
+                match resp.error with
+                | .error e => ((w1, .error e), [(offset, vb)])
+                | .ok _ =>
+                  if allOk && resp.valid then
+                    match parseReadReply (ty ++ acc ++ vb) req.info req.elements with
+                    | .ok (v, dt) => ((w1, .ok (resp, v, some dt)), [(offset, vb)])
+                    | .error _ => ((w1, .ok ({ resp with p := { resp.p with err := some .parseFailed }, valid := false }, .none, none)),
+                        [(offset, vb)])
+                  else ((w1, .ok (failedResp "One or more fragment responses failed", .none, none)), [(offset, vb)])
 
 /-- the instrumentation does not change the loop -/
 theorem ldf_readFragLog_fst {σ} (hook : ObjHook σ) (req : ReadReq) (fuel : Nat) :
@@ -186,18 +193,26 @@ theorem ldf_readFragLog_fst {σ} (hook : ObjHook σ) (req : ReadReq) (fuel : Nat
     | ok raw =>
       dsimp only
       cases (tagResp raw).p.data with
-      | none => rfl
+      | none =>
+        dsimp only
+        cases (tagResp raw).error with
+        | error e => rfl
+        | ok x => rfl
       | some d =>
         dsimp only
         split
         · dsimp only
           rw [← ih]
-        · split
-          · generalize parseReadReply _ req.info req.elements = pr
-            cases pr with
-            | error e => rfl
-            | ok x => obtain ⟨v, dt⟩ := x; rfl
-          · rfl
+        · cases (tagResp raw).error with
+          | error e => rfl
+          | ok x =>
+            dsimp only
+            split
+            · generalize parseReadReply _ req.info req.elements = pr
+              cases pr with
+              | error e => rfl
+              | ok x => obtain ⟨v, dt⟩ := x; rfl
+            · rfl
 
 /-- the offsets of the log: every request asks for the starting offset plus the number of value bytes the earlier
     replies delivered -/
@@ -223,7 +238,7 @@ theorem ldf_readFragLog_offsets {σ} (hook : ObjHook σ) (req : ReadReq) (fuel :
     | ok raw =>
       dsimp only
       cases (tagResp raw).p.data with
-      | none => exact one _ i
+      | none => dsimp only; split <;> exact one _ i
       | some d =>
         dsimp only
         split
@@ -237,8 +252,10 @@ theorem ldf_readFragLog_offsets {σ} (hook : ObjHook σ) (req : ReadReq) (fuel :
             rw [ih _ _ _ _ _ i hi]
             omega
         · split
-          · split <;> exact one _ i
           · exact one _ i
+          · split
+            · split <;> exact one _ i
+            · exact one _ i
 
 /-- the frames the loop writes are, in order, the frames of the fragmented-read requests for the logged offsets
     (the last logged request may have produced no frame: the transport refused it) -/
@@ -287,7 +304,7 @@ theorem ldf_readFragLog_frames {σ} (hook : ObjHook σ) (req : ReadReq) (fuel : 
         intro res ⟨e, he⟩; cases he
       dsimp only
       cases (tagResp raw).p.data with
-      | none => exact last [] _ (nores _)
+      | none => dsimp only; split <;> exact last [] _ (nores _)
       | some d =>
         dsimp only
         split
@@ -307,8 +324,10 @@ theorem ldf_readFragLog_frames {σ} (hook : ObjHook σ) (req : ReadReq) (fuel : 
               have := l2 x hx
               simp only [List.length_cons]; omega
         · split
-          · split <;> exact last _ _ (nores _)
           · exact last _ _ (nores _)
+          · split
+            · split <;> exact last _ _ (nores _)
+            · exact last _ _ (nores _)
 
 /-- a fragmented read that delivers a value has parsed it from the type bytes of the last reply and all the value
     bytes received, in the order received -/
@@ -329,7 +348,7 @@ theorem ldf_readFragLog_value {σ} (hook : ObjHook σ) (req : ReadReq) (fuel : N
     | ok raw =>
       dsimp only
       cases (tagResp raw).p.data with
-      | none => intro h; cases h
+      | none => dsimp only; split <;> (intro h; cases h)
       | some d =>
         dsimp only
         split
@@ -341,16 +360,18 @@ theorem ldf_readFragLog_value {σ} (hook : ObjHook σ) (req : ReadReq) (fuel : N
           rw [← hty]
           simp only [List.append_assoc]
         · split
-          · generalize hpr : parseReadReply ((Cl.splitTyped d).1 ++ acc ++ (Cl.splitTyped d).2) req.info req.elements = pr
-            cases pr with
-            | error e => intro h; cases h
-            | ok x =>
-              obtain ⟨v', dt'⟩ := x
-              intro h
-              simp only [Except.ok.injEq, Prod.mk.injEq, Option.some.injEq] at h
-              obtain ⟨_, rfl, rfl⟩ := h
-              exact ⟨(Cl.splitTyped d).1, by simpa using hpr⟩
           · intro h; cases h
+          · split
+            · generalize hpr : parseReadReply ((Cl.splitTyped d).1 ++ acc ++ (Cl.splitTyped d).2) req.info req.elements = pr
+              cases pr with
+              | error e => intro h; cases h
+              | ok x =>
+                obtain ⟨v', dt'⟩ := x
+                intro h
+                simp only [Except.ok.injEq, Prod.mk.injEq, Option.some.injEq] at h
+                obtain ⟨_, rfl, rfl⟩ := h
+                exact ⟨(Cl.splitTyped d).1, by simpa using hpr⟩
+            · intro h; cases h
 
 /-- every frame the fragmented read loop writes fits the connection when the request path leaves room:
     sequence count 2 + service 1 + path + element count 2 + offset 4 -/
